@@ -29,6 +29,12 @@ type TenantSpec struct {
 	API    []string     `json:"api,omitempty"` // demux: cyclic list of "data" / "packet"
 	Period int          `json:"period,omitempty"`
 	Ops    []MuxOp      `json:"ops,omitempty"`
+	// demux tenants: how the stream is framed and read (zero values: 188-byte packets, explicit
+	// packet size, seekable reader, whole stream)
+	Auto   bool   `json:"auto,omitempty"`   // packet size auto-detected
+	K      int    `json:"k,omitempty"`      // packets carried in 188+K bytes
+	Reader string `json:"reader,omitempty"` // seekable (default) | bufio | plain
+	Trunc  int    `json:"trunc,omitempty"`  // > 0: the tenant's stream is cut after Trunc bytes (a short capture)
 }
 
 // SchedPlan decides who runs next at every yield.
@@ -61,10 +67,10 @@ func (tenants) Runs(tier string) int64 {
 
 func (tenants) Meta() core.EngineMeta {
 	return core.EngineMeta{
-		Rule:       "N in 2..8 (thorough: up to 64) tenants, each a real goroutine with its own Demuxer on its own reference stream or its own Muxer with its own history, share only what the package shares: the bytes pool, here backed by SimPool through the verif hook (LIFO/FIFO/seeded-pick/never-reuse; buffers poisoned on put and on get). The tenant scheduler releases exactly one goroutine at a time, switching at API-call boundaries and at the pool's before-get / after-get / before-put yield points according to the scenario (round-robin, API-only, switch-after-get, switch-before-put, long runs, seeded). Every returned Packet/DemuxerData is deep-dumped at delivery and re-compared by its owner after each of its later steps and at the end; WriteData payloads likewise; each tenant's result sequence must equal its solo run with a never-reusing private pool; pool bookkeeping must balance. One run in eight is re-executed by the -race build: hand-offs are raw pipe syscalls invisible to the detector, so any conflicting access by two tenants is reported whatever the timing; a report with a go-astits/go-astikit frame is a violation. distinct = (tenant kinds, N, pool policy, scheduler mode, reuse count class, switches-at-pool-sites class); non-trivial = the scheduler switched between tenants at least once.",
+		Rule:       "N in 2..8 (thorough: up to 64) tenants, each a real goroutine with its own Demuxer on its own reference stream or its own Muxer with its own history, share only what the package shares: the bytes pool, here backed by SimPool through the verif hook (LIFO/FIFO/seeded-pick/never-reuse; buffers poisoned on put and on get). The tenant scheduler releases exactly one goroutine at a time, switching at API-call boundaries and at the pool's before-get / after-get / before-put yield points according to the scenario (round-robin, API-only, switch-after-get, switch-before-put, long runs, seeded). Every returned Packet/DemuxerData is deep-dumped at delivery and re-compared by its owner after each of its later steps and at the end; WriteData payloads likewise; each tenant's result sequence must equal its solo run with a never-reusing private pool, and its solo run after the tenants that follow it must equal its solo run after the tenants that precede it (sequential schedules in both orders; two fifths of the demux tenants use 188+K framing, auto-detection, bufio/plain readers and captures cut short, so that per-process scratch state would show); pool bookkeeping must balance. One run in eight is re-executed by the -race build: hand-offs are raw pipe syscalls invisible to the detector, so any conflicting access by two tenants is reported whatever the timing; a report with a go-astits/go-astikit frame is a violation. distinct = (tenant kinds, N, pool policy, scheduler mode, reuse count class, switches-at-pool-sites class); non-trivial = the scheduler switched between tenants at least once.",
 		Real:       []string{"astits.Demuxer", "astits.Muxer", "everything below them", "Go race detector (second pass)"},
 		Stub:       []string{"SimPool (stub of sync.Pool behind the verif hook)", "tenant scheduler (baton hand-off)", "refts reference multiplexer", "per-tenant readers / writers"},
-		FaultKinds: []string{"switch-at-api", "race-pass"}, // pool-related kinds are reach probes: whether and where the library uses its pool is its own business
+		FaultKinds: []string{"switch-at-api", "race-pass", "sequential-reverse-order"}, // pool-related kinds are reach probes: whether and where the library uses its pool is its own business
 		Assumptions: []string{
 			"preemption inside library code other than at the pool points is not simulated; what it could expose (unsynchronised shared memory) is what the happens-before-blind race pass reports without needing the interleaving to occur",
 			"instances are never shared between goroutines (the library does not promise that)",
@@ -124,6 +130,16 @@ func genTenant(r *core.PRNG) TenantSpec {
 		cfg.ES = 2
 	}
 	t := TenantSpec{Kind: "demux", Model: GenModel(r, cfg)}
+	if r.Chance(2, 5) {
+		// other framings and readers, short captures: whatever a Demuxer keeps outside itself
+		// (scratch buffers, caches) must not leak from one instance into another
+		t.Auto = r.Bool()
+		t.K = []int{0, 0, 4, 4, 1, 2, 3}[r.Intn(7)]
+		t.Reader = []string{"seekable", "bufio", "plain"}[r.Intn(3)]
+		if r.Chance(1, 3) {
+			t.Trunc = []int{188 + t.K, 188 + t.K, r.Range(1, 187), r.Range(189, 192), 2*(188+t.K) - r.Range(1, 5)}[r.Intn(5)]
+		}
+	}
 	switch r.Pick(4, 1, 2) {
 	case 0:
 		t.API = []string{"data"}
@@ -300,10 +316,25 @@ func runTenant(spec *TenantSpec, yield func()) (res *tenantResult) {
 		if err != nil {
 			return
 		}
-		data, npk = refts.Join(b.Packets), len(b.Packets)
+		data, npk = reframe(b.Packets, spec.K), len(b.Packets)
+		if spec.Trunc > 0 && spec.Trunc < len(data) {
+			data = data[:spec.Trunc]
+		}
 	}
-	rd, _ := world.NewReader(data, world.ReaderPlan{Kind: "seekable"}, nil)
-	dmx := astits.NewDemuxer(context.Background(), rd, astits.DemuxerOptPacketSize(188))
+	kind := spec.Reader
+	if kind == "" || muxed != nil {
+		kind = "seekable"
+	}
+	rd, _ := world.NewReader(data, world.ReaderPlan{Kind: kind}, nil)
+	var opts []func(*astits.Demuxer)
+	if !spec.Auto || muxed != nil {
+		size := 188
+		if muxed == nil {
+			size += spec.K
+		}
+		opts = append(opts, astits.DemuxerOptPacketSize(size))
+	}
+	dmx := astits.NewDemuxer(context.Background(), rd, opts...)
 	api := spec.API
 	if len(api) == 0 {
 		api = []string{"data"}
@@ -456,6 +487,16 @@ func execTenants(sc *TenantScenario, out *core.Outcome) {
 	}
 	tr := runTenants(sc, out.Log)
 	out.Steps = int64(tr.steps)
+	// sequential schedule in the opposite order (the degenerate interleaving in which every
+	// tenant finishes before the next starts): what a tenant gets must not depend on which
+	// instances were used before it in the process
+	rev := make([]*tenantResult, n)
+	for i := n - 1; i >= 0; i-- {
+		astits.VerifSetPool(world.NewSimPool(world.PoolPlan{Policy: "never"}), nil)
+		rev[i] = runTenant(&sc.Tenants[i], nil)
+		astits.VerifSetPool(nil, nil)
+	}
+	out.Fire("sequential-reverse-order")
 	if tr.pool.Reuses > 0 {
 		out.Probe("buffer-reuse-across-tenants")
 		out.Probe("poison")
@@ -494,6 +535,19 @@ func execTenants(sc *TenantScenario, out *core.Outcome) {
 		}
 		if r.outSum != s.outSum {
 			out.Violate("C16", "tenants-interfere", "mux-output", "tenant %d (mux): output %s differs from its solo run %s", i, r.outSum, s.outSum)
+		}
+		if v := rev[i]; v != nil && v.panicMsg == "" {
+			if ok, msg := seqEq(s.keys, v.keys); !ok {
+				out.Violate("C16", "tenants-interfere", "history-"+t.Kind, "tenant %d (%s): run alone after tenants %d.. its results differ from its run alone after tenants ..%d: %s", i, t.Kind, i+1, i-1, msg)
+			} else if v.outSum != s.outSum {
+				out.Violate("C16", "tenants-interfere", "history-mux-output", "tenant %d (mux): output depends on which instances were used before it", i)
+			}
+		}
+		if t.Kind == "demux" && (t.Auto || t.K > 0 || t.Trunc > 0 || (t.Reader != "" && t.Reader != "seekable")) {
+			out.Probe("demux-tenant-other-framing")
+			if t.Trunc > 0 && t.Auto {
+				out.Probe("demux-tenant-short-capture-auto")
+			}
 		}
 	}
 	if tr.pool.DoublePuts > 0 {
@@ -602,6 +656,26 @@ func (tenants) Shrink(scAny any) []any {
 		}
 	}
 	for i, t := range sc.Tenants {
+		if t.Kind == "demux" {
+			mod := func(f func(x *TenantSpec)) {
+				c := *sc
+				c.Tenants = append([]TenantSpec{}, sc.Tenants...)
+				f(&c.Tenants[i])
+				out = append(out, &c)
+			}
+			if t.Reader != "" && t.Reader != "seekable" {
+				mod(func(x *TenantSpec) { x.Reader = "" })
+			}
+			if t.Auto {
+				mod(func(x *TenantSpec) { x.Auto = false })
+			}
+			if t.Trunc > 0 {
+				mod(func(x *TenantSpec) { x.Trunc = 0 })
+			}
+			if t.K > 0 && t.Trunc == 0 {
+				mod(func(x *TenantSpec) { x.K = 0 })
+			}
+		}
 		if t.Kind == "demux" && t.Model != nil {
 			for _, m := range shrinkModel(t.Model) {
 				c := *sc
